@@ -1,7 +1,7 @@
 (* C03 -- statements only; see DESIGN.md section 6 C03.  Theorems are added as the proofs land;
    the witnesses below are evaluated in the kernel on the whole-parser model. *)
 From Coq Require Import String.
-From MdIt Require Import Prims Tables Escape Ruler Tree Render Block Inline Core Dump Dispatch TreeProofs RenderProofs SafeProofs.
+From MdIt Require Import Prims Tables Escape Ruler Tree Render Block Inline Core Dump Dispatch TreeProofs RenderProofs SafeProofs ConfigProofs.
 Local Open Scope string_scope.
 Local Open Scope list_scope.
 Local Open Scope N_scope.
@@ -54,6 +54,18 @@ Theorem C03_output_fully_escaped : forall fuel m src d bc ic xhtml html,
   exists es, Forall not_raw_event es /\ html = serialize xhtml es.
 Proof. exact parse_render_no_raw. Qed.
 
+(* all three hypotheses discharged: EVERY parser assembled from the shipped plugins (any letters of the harness' plugin
+   alphabet in any order and multiplicity, any nesting limit) without the HTML plugin -- i.e. whose configuration string
+   uses neither x (inline HTML), X (HTML block) nor W (both) -- every input, every fuel *)
+Theorem C03_shipped_without_html : forall cfg nest fuel src d, html_free_cfg cfg = true ->
+  snd (parse fuel (build_md cfg nest) src) = inr d ->
+  raw_free (d_root d) = true /\
+  forall xhtml html, render xhtml (d_root d) = inr html -> exists es, Forall not_raw_event es /\ html = serialize xhtml es.
+Proof. exact shipped_without_html_safe. Qed.
+
+Example C03_html_free_cfg : html_free_cfg = fun cfg => forallb (fun c => negb ((c =? 120) || (c =? 88) || (c =? 87))) cfg.
+Proof. reflexivity. Qed.
+
 (* the hypotheses hold for CommonMark + strikethrough (+ sourcepos, custom rules) in any order *)
 Example C03_hypotheses_hold :
   let m := build_md (bs "sC8S13") 100 in
@@ -66,3 +78,4 @@ Print Assumptions C03_escape_no_special.
 Print Assumptions C03_escape_lossless.
 Print Assumptions C03_no_raw_nodes.
 Print Assumptions C03_output_fully_escaped.
+Print Assumptions C03_shipped_without_html.
